@@ -554,6 +554,11 @@ func (fr *Frame) convert(x *ssa.Convert, st *State, g string) {
 		fc.assume("true", eq(app("str_of_bytes", blk, "0", n), v.t))
 		fc.emit(fmt.Sprintf("(assert (forall ((i Int)) (! (=> (and (<= 0 i) (< i %s)) (= (select %s i) (strat %s i))) :pattern ((select %s i)))))", n, blk, v.t, blk))
 		fr.setVal(x, "Slice", mkSlice(pt, "0", n, n))
+		if _, used := fc.ufs["strseq"]; used {
+			// only in functions whose specs mention strseq(): the new block holds the byte string of the Go string (see builtin strseq)
+			fc.eng.declareUF(fc, "bseq", []string{"(Array Int Int)", "Int", "Int"}, "Int")
+			fc.assume("true", eq(app("bseq", blk, "0", n), app("strseq", v.t)))
+		}
 	case tok && tb.Info()&types.IsString != 0:
 		if _, isSl := from.(*types.Slice); isSl {
 			k, s := fc.bKey(types.Typ[types.Uint8])
